@@ -39,9 +39,10 @@ func From8Bit(v uint8) float32 {
 //
 // This implementation uses a fast look-up table without sacrificing accuracy.
 func From16Bit(v uint16) float32 {
-	if encoded16ToLinearLUT != nil {
-		return encoded16ToLinearLUT[v]
-	}
+	// The table is only read after passing through the sync.Once that
+	// publishes it (whose fast path is a single atomic load); checking the
+	// slice for nil first would be an unsynchronised read racing with the
+	// initialising write.
 	return from16BitAndInitLUT(v)
 }
 
@@ -68,9 +69,7 @@ func To8Bit(v float32) uint8 {
 // This implementation uses a fast look-up table and is approximate. For more
 // accuracy, see ConvertLinearTo16Bit.
 func To16Bit(v float32) uint16 {
-	if linearToEncoded16LUT != nil {
-		return linearToEncoded16LUT[linear.NormalisedTo16Bit(v)]
-	}
+	// See From16Bit for why there is no nil check in front of the sync.Once.
 	return to16BitAndInitLUT(v)
 }
 
